@@ -30,6 +30,9 @@
 //!          shape 0 = left to right into the first, 1 = right to left, 2 = balanced tree;
 //!          out = ["ok", [estimate, [[rank..]..]]]  rank = DefaultHasher(elem) as f64 / 2^64
 //!   "kmvp": in = [k, [elem..], parts]        approx_distinct_count(k); out as "kmv" (one part)
+//!   "kmvs": as "kmvp" for big inputs: elements and ranks travel in chunks of <= 4000
+//!          (in = [k, [[elem..]..], parts], out = ["ok", [estimate, [[rank..]..]]]) because coqc's
+//!          parser overflows its stack on a single list literal of 10^5 elements
 //!   "kmvk": in = [k, [[key, elem]..], parts] approx_distinct_count_per_key(k);
 //!          out = ["ok", [[[key, estimate]..] sorted, [rank per pair..]]]
 use ibv::{Emitter, SplitMix64, Tier, drive, ok};
@@ -314,6 +317,25 @@ fn run(kind: &str, input: &Value) -> Value {
                 return json!(["err", "not-one-output"]);
             }
             ok(json!([fj(res[0]), [ranks]]))
+        }
+        "kmvs" => {
+            let k = input[0].as_u64().unwrap() as usize;
+            let chunks: Vec<Vec<u64>> = input[1].as_array().unwrap().iter().map(u64s).collect();
+            let parts = input[2].as_u64().unwrap() as usize;
+            let ranks: Vec<Value> = chunks
+                .iter()
+                .map(|c| fjs(&c.iter().map(|&e| rank_of(e)).collect::<Vec<_>>()))
+                .collect();
+            let elems: Vec<u64> = chunks.into_iter().flatten().collect();
+            let p = Pipeline::default();
+            let out = from_vec(&p, elems).approx_distinct_count(k);
+            let res: Vec<f64> =
+                if parts == 0 { out.collect_seq() } else { out.collect_par(None, Some(parts)) }
+                    .expect("collect");
+            if res.len() != 1 {
+                return json!(["err", "not-one-output"]);
+            }
+            ok(json!([fj(res[0]), ranks]))
         }
         "kmvk" => {
             let k = input[0].as_u64().unwrap() as usize;
@@ -647,21 +669,47 @@ fn generate(seed: u64, tier: Tier, em: &mut Emitter) {
         }
     }
 
-    // ---- 8. extreme magnitudes: only the property instance is judged
-    let reps = if thorough { 600 } else { 120 };
-    let mags = [1e300, -1e300, 1e-300, -1e-300, 5e-324, -5e-324, 2.2250738585072014e-308,
-                1e-310, 0.0, -0.0, 1.0, -1.0, 3e299, 1e150, -1e150];
-    for _ in 0..reps {
-        let c = *rng.pick(&[2.0, 10.0, 20.0, 100.0]);
-        let n = rng.below(30) as usize;
-        let mut vals: Vec<f64> = (0..n).map(|_| *rng.pick(&mags)).collect();
+    // ---- 8. extreme magnitudes (up to f64::MAX: overflow fallbacks of compress / quantile).
+    // "td": agreement AND property; "tdx" (zeros of both signs mixed in: f64::min/max may return
+    // either zero): property only.
+    let reps = if thorough { 900 } else { 180 };
+    let mags = [f64::MAX, -f64::MAX, 1e308, -1e308, 1.6e308, -1.6e308, 1e300, -1e300, 3e299, 1e150,
+                -1e150, 1e-300, -1e-300, 5e-324, -5e-324, 2.2250738585072014e-308, 1e-310, 1.0, -1.0, 0.0];
+    for i in 0..reps {
+        let c = *rng.pick(&[2.0, 10.0, 20.0, 100.0, 1000.0]);
+        let n = if rng.chance(1, 3) { 20 + rng.below(100) as usize } else { rng.below(30) as usize };
+        let sub = match i % 4 {
+            0 => &mags[..6],   // only values near f64::MAX
+            1 => &mags[..11],  // huge
+            _ => &mags[..],    // everything
+        };
+        let mut vals: Vec<f64> = (0..n).map(|_| *rng.pick(sub)).collect();
+        if i % 8 == 7 {
+            // all equal to +-f64::MAX: the convex-combination fallback can round above MAX
+            let m = if rng.chance(1, 2) { f64::MAX } else { -f64::MAX };
+            vals = vec![m; 20 + rng.below(100) as usize];
+        }
         if rng.chance(1, 4) {
             vals.push(*rng.pick(&[f64::INFINITY, f64::NEG_INFINITY, f64::NAN]));
         }
+        let both_zeros = i % 6 == 5;
+        if both_zeros {
+            for v in vals.iter_mut() {
+                if *v == 0.0 && rng.chance(1, 2) {
+                    *v = -0.0;
+                }
+            }
+            vals.push(-0.0);
+        }
         let parts = 1 + rng.below(3) as usize;
         let (prog, _) = partition_prog(&mut rng, c, &vals, parts);
-        em.case("tdx", json!([prog, fjs(&qs_std()), fjs(&xs_for(&vals))]), nfinite(&vals) >= 2,
-                &["extreme-magnitude", "agreement-not-required"]);
+        if both_zeros {
+            em.case("tdx", json!([prog, fjs(&qs_std()), fjs(&xs_for(&vals))]), nfinite(&vals) >= 2,
+                    &["extreme-magnitude", "signed-zeros", "agreement-not-required"]);
+        } else {
+            em.case("td", json!([prog, fjs(&qs_std()), fjs(&xs_for(&vals))]), nfinite(&vals) >= 2,
+                    &["extreme-magnitude"]);
+        }
     }
 
     // ---- 9. sampled rank error (statistical claim; sampled, not proved)
@@ -755,7 +803,8 @@ fn generate(seed: u64, tier: Tier, em: &mut Emitter) {
         let dups: Vec<u64> = (0..d / 4).map(|_| *rng.pick(&elems)).collect();
         elems.extend(dups);
         shuffle(&mut rng, &mut elems);
-        em.case("kmvp", json!([k, elems, parts]), true, &["kmv", "sampled-error-band"]);
+        let chunks: Vec<&[u64]> = elems.chunks(4000).collect();
+        em.case("kmvs", json!([k, chunks, parts]), true, &["kmv", "sampled-error-band"]);
     }
 }
 
